@@ -150,7 +150,8 @@ def match_known(res, known):
     """a finding is keyed by the obligation name without its path / pattern suffixes"""
     fam = _family(res['name'])
     for k in known:
-        if k['prop'] == res['prop'] and k['obligation'] == fam:
+        ob = k['obligation'] or ''
+        if k['prop'] == res['prop'] and (ob == fam or (ob.endswith('*') and fam.startswith(ob[:-1]))):
             return k
     return None
 
